@@ -145,7 +145,11 @@ def specs(draw, alphabet):
     if draw(st.booleans()):
         secs.append(lastext.section("O", "~Other", [{"t": "text", "text": draw(phrase) or "note"} for _ in range(draw(st.integers(1, 2)))]))
     r = draw(st.integers(1, 4))
-    secs.append(lastext.section("A", "~A", [lastext.row([str(i + 1)] + ["%d.%d" % (i, j) for j in range(1, nc)]) for i in range(r)], ncols=nc))
+    asec = lastext.section("A", "~A", [lastext.row([str(i + 1)] + ["%d.%d" % (i, j) for j in range(1, nc)]) for i in range(r)], ncols=nc)
+    if len(secs) > 3 and draw(st.booleans()):
+        secs.insert(3, asec)  # header sections after the data: their place in the file is found again by position
+    else:
+        secs.append(asec)
     return {"nl": "\n", "final_nl": draw(st.booleans()), "sections": secs}
 
 
@@ -209,10 +213,16 @@ def oracle_history(case):
                 elif ch == "string":
                     las = attempt(lasio.read, texts[ti])
                 else:
-                    path = os.path.join(tmp, "t%d_%d.las" % (ti, step))
-                    with open(path, "w", encoding="utf-8", newline="") as f:
+                    # the same path is written again and again with other content and other encodings: a read is a
+                    # function of what the file holds NOW
+                    shared = len(op) > 3 and op[3]
+                    info = CODECS[op[4] if len(op) > 4 else "utf-8"]
+                    path = os.path.join(tmp, "shared.las" if shared else "t%d_%d.las" % (ti, step))
+                    with open(path, "w", encoding=info["enc"], newline="") as f:
                         f.write(texts[ti])
-                    las = attempt(lasio.read, path if ch == "path" else pathlib.Path(path), encoding="utf-8")
+                    if shared:
+                        kinds.add("read-rewritten-path")
+                    las = attempt(lasio.read, path if ch == "path" else pathlib.Path(path), **info["kw"])
                 if is_raised(las):
                     out.fail("history-read-raises|" + las.bucket, "step %d %r: %s\n%s" % (step, op, las, texts[ti]))
                     break
@@ -285,7 +295,10 @@ def oracle_history(case):
 
 OP = st.one_of(
     st.tuples(st.just("read"), st.integers(0, 2), st.sampled_from(["stringio", "string", "path", "Path"])),
-    st.tuples(st.just("read"), st.integers(0, 2), st.sampled_from(["stringio", "string", "path", "Path"])),
+    st.tuples(st.just("read"), st.integers(0, 2), st.sampled_from(["path", "Path"]), st.booleans(),
+              st.sampled_from(["utf-8", "utf-8-sig", "utf-16", "utf-8-sig+encoding=utf-8", "utf-16-le", "utf-8-sig+no-autodetect"])),
+    st.tuples(st.just("read"), st.integers(0, 2), st.sampled_from(["path", "Path"]), st.just(True),
+              st.sampled_from(["utf-8", "utf-8-sig", "utf-16", "utf-8-sig+encoding=utf-8", "utf-16-le", "utf-8-sig+no-autodetect"])),
     st.tuples(st.just("new")),
     st.tuples(st.just("set_header"), st.integers(0, 5), st.sampled_from(["W", "P"]), st.integers(0, 9), st.sampled_from(["x", 5, 2.5])),
     st.tuples(st.just("set_sample"), st.integers(0, 5), st.integers(0, 5), st.integers(0, 9)),
